@@ -788,26 +788,847 @@ theorem growLoop_ext : ∀ (fuel : Nat) (s : St) (need : Int), s.featBuf.length 
     · simp only [growLoop, h, if_false]
       exact ⟨FbExt.refl s hl, by omega⟩
 
-/-- the two growth steps of `acmod_process_cep` (acmod.c:656-678) leave room for `inptr + nfeat` -/
-theorem grow_spec (s : St) (nfeat : Int) (hl : s.featBuf.length = s.nFeatAlloc) (h1 : 1 ≤ s.nFeatAlloc)
+/-- the two growth steps of `acmod_process_cep` leave room for `inptr + nfeat` -/
+theorem cepGrow_spec (s : St) (nfeat : Int) (hl : s.featBuf.length = s.nFeatAlloc) (h1 : 1 ≤ s.nFeatAlloc)
     (hff : s.nFeatFrame ≤ s.nFeatAlloc) :
-    let s1 := if nfeat > (s.nFeatAlloc : Int) - s.nFeatFrame then growFeatBuf s ((s.nFeatAlloc : Int) + nfeat).toNat else s
-    let need : Int := ((s1.featOutidx + s1.nFeatFrame : Nat) : Int) + nfeat
-    let s2 := growLoop (need.toNat + 1) s1 need
-    FbExt s s2 ∧ ((s.featOutidx + s.nFeatFrame : Nat) : Int) + nfeat < (s2.nFeatAlloc : Int) := by
-  intro s1 need s2
-  have hs1 : FbExt s s1 := by
-    simp only [s1]
+    FbExt s (cepGrow s nfeat) ∧
+      ((s.featOutidx + s.nFeatFrame : Nat) : Int) + nfeat < ((cepGrow s nfeat).nFeatAlloc : Int) := by
+  have hs1 : FbExt s (if nfeat > (s.nFeatAlloc : Int) - s.nFeatFrame then
+      growFeatBuf s ((s.nFeatAlloc : Int) + nfeat).toNat else s) := by
     split
     · exact growFeatBuf_ext s _ hl (by omega)
     · exact FbExt.refl s hl
   obtain ⟨fb, a, e, hl1, hle, hg⟩ := hs1
-  have hl' : s1.featBuf.length = s1.nFeatAlloc := by rw [e]; exact hl1
-  have ha : s1.nFeatAlloc = a := by rw [e]
-  have hneed : need = ((s.featOutidx + s.nFeatFrame : Nat) : Int) + nfeat := by
-    simp only [need]; rw [e]
-  obtain ⟨i1, i2⟩ := growLoop_ext (need.toNat + 1) s1 need hl' (by omega) (by omega)
-  refine ⟨FbExt.trans ⟨fb, a, e, hl1, hle, hg⟩ i1 hl, ?_⟩
-  rw [← hneed]; exact i2
+  unfold cepGrow
+  simp only []
+  rw [e]
+  simp only []
+  obtain ⟨i1, i2⟩ := growLoop_ext ((((s.featOutidx + s.nFeatFrame : Nat) : Int) + nfeat).toNat + 1)
+    { s with featBuf := fb, nFeatAlloc := a } (((s.featOutidx + s.nFeatFrame : Nat) : Int) + nfeat) hl1
+    (by simp only []; omega) (by simp only []; omega)
+  exact ⟨FbExt.trans ⟨fb, a, rfl, hl1, hle, hg⟩ i1 hl, i2⟩
+
+theorem processCep_eq (fix : Bool) (win : Nat) (skip : Nat → Bool) (s : St) (ptr n : Nat) (hg : s.growFeat = true)
+    (hl : s.featBuf.length = s.nFeatAlloc) (h1 : 1 ≤ s.nFeatAlloc) (hff : s.nFeatFrame ≤ s.nFeatAlloc) :
+    processCep fix win skip s ptr n =
+      cepFinish fix (featLive win skip (cepGrow s (cepNfeat win s n)) ptr n (s.state == .started) (s.state == .ended)
+        (s.featOutidx + s.nFeatFrame)) := by
+  obtain ⟨hext, hroom⟩ := cepGrow_spec s (cepNfeat win s n) hl h1 hff
+  obtain ⟨fb, a, e, -, -, -⟩ := hext
+  have hst : (cepGrow s (cepNfeat win s n)).state = s.state := by rw [e]
+  have h2 : ¬ (((s.featOutidx + s.nFeatFrame : Nat) : Int) + cepNfeat win s n >
+      ((cepGrow s (cepNfeat win s n)).nFeatAlloc : Int)) := by omega
+  unfold processCep
+  simp only [hg, Bool.not_true, Bool.false_eq_true, if_false, h2, false_and, hst]
+
+/-! ## `acmod_process_cep` -/
+
+theorem LiveInv.of_eq {win c} {s s' : St} (h : LiveInv win s c) (h1 : s'.cepbuf = s.cepbuf) (h2 : s'.curpos = s.curpos)
+    (h3 : s'.bufpos = s.bufpos) : LiveInv win s' c := by
+  unfold LiveInv at *
+  rw [h1, h2, h3]; exact h
+
+/-- what `acmod_process_cep` leaves, relative to the state before the call -/
+structure CepOut (s s' : St) (ptr m nfv : Nat) (feat : Nat → Feat) (st' : UState) : Prop where
+  frame : ∃ cb bp cp fb a mb cf cm, s' =
+    { s with cepbuf := cb, bufpos := bp, curpos := cp, featBuf := fb, nFeatAlloc := a,
+             nFeatFrame := s.nFeatFrame + nfv, mfcBuf := mb, cmnFrames := cf, cmnMoved := cm, state := st' }
+  fbLen : s'.featBuf.length = s'.nFeatAlloc
+  allocLe : s.nFeatAlloc ≤ s'.nFeatAlloc
+  room : s.featOutidx + s.nFeatFrame + nfv < s'.nFeatAlloc
+  fbNew : ∀ t, t < nfv → s'.featBuf.getD (s.featOutidx + s.nFeatFrame + t) none = some (feat t)
+  fbOld : ∀ q, q < s.featOutidx + s.nFeatFrame → s'.featBuf.getD q none = s.featBuf.getD q none
+  mbLen : s'.mfcBuf.length = s.mfcBuf.length
+  mbOld : ∀ q, (q < ptr ∨ q ≥ ptr + m) → s'.mfcBuf.getD q none = s.mfcBuf.getD q none
+  cmnLo : s.cmnFrames ≤ s'.cmnFrames
+  cmnHi : s'.cmnFrames ≤ s.cmnFrames + m
+
+theorem cepFinish_spec (fix : Bool) (s s2 : St) (R : LiveRes) (ptr m nfv : Nat) (feat : Nat → Feat)
+    (hext : FbExt s s2) (hlo : LiveOut s2 R ptr m (s.featOutidx + s.nFeatFrame) nfv feat)
+    (hroom : s.featOutidx + s.nFeatFrame + nfv < s2.nFeatAlloc) (ho : s.featOutidx + s.nFeatFrame ≤ s.featBuf.length) :
+    (cepFinish fix R).used = m ∧
+    CepOut s (cepFinish fix R).st ptr m nfv feat
+      (if s.state = .started ∧ (!fix || decide (m > 0)) then .processing else s.state) ∧
+    (cepFinish fix R).st.cepbuf = R.st.cepbuf ∧ (cepFinish fix R).st.bufpos = R.st.bufpos ∧
+    (cepFinish fix R).st.curpos = R.st.curpos ∧ (cepFinish fix R).st.cmnMoved = R.st.cmnMoved := by
+  obtain ⟨fb0, a0, e0, hl0, hle0, hg0⟩ := hext
+  obtain ⟨cb, bp, cp, fb, mb, cf, cm, eR⟩ := hlo.frame
+  have hRa : R.st.nFeatAlloc = a0 := by rw [eR, e0]
+  have hRf : R.st.nFeatFrame = s.nFeatFrame := by rw [eR, e0]
+  have hRs : R.st.state = s.state := by rw [eR, e0]
+  have hs2a : s2.nFeatAlloc = a0 := by rw [e0]
+  have hassert : R.st.nFeatFrame + R.nfeat ≤ R.st.nFeatAlloc := by rw [hRa, hRf, hlo.nfeat]; omega
+  have hE : (cepFinish fix R).st =
+      { s with cepbuf := cb, bufpos := bp, curpos := cp, featBuf := fb, nFeatAlloc := a0,
+               nFeatFrame := s.nFeatFrame + nfv, mfcBuf := mb, cmnFrames := cf, cmnMoved := cm,
+               state := if s.state = .started ∧ (!fix || decide (m > 0)) then .processing else s.state } := by
+    unfold cepFinish
+    simp only [hassert, if_true, hRs, hlo.used]
+    rw [hlo.nfeat, eR, e0]
+    split <;> rfl
+  have hfbl : fb.length = a0 := by
+    have := hlo.fbLen; rw [eR, e0] at this; simp only [] at this; omega
+  have hfbR : R.st.featBuf = fb := by rw [eR]
+  have hmbR : R.st.mfcBuf = mb := by rw [eR]
+  have hcfR : R.st.cmnFrames = cf := by rw [eR]
+  have hs2fb : s2.featBuf = fb0 := by rw [e0]
+  have hs2mb : s2.mfcBuf = s.mfcBuf := by rw [e0]
+  have hs2cf : s2.cmnFrames = s.cmnFrames := by rw [e0]
+  refine ⟨by unfold cepFinish; exact hlo.used, ⟨⟨_, _, _, _, _, _, _, _, hE⟩, ?_, ?_, ?_, ?_, ?_, ?_, ?_, ?_, ?_⟩, ?_, ?_, ?_, ?_⟩
+  · rw [hE]; exact hfbl
+  · rw [hE]; exact hle0
+  · rw [hE]; simp only []; omega
+  · intro t ht; rw [hE]; simp only []; rw [← hfbR]; exact hlo.fbNew t ht
+  · intro q hq; rw [hE]; simp only []; rw [← hfbR, hlo.fbOld q (by omega), hs2fb, hg0 q (by omega)]
+  · rw [hE]; simp only []; rw [← hmbR, hlo.mbLen, hs2mb]
+  · intro q hq; rw [hE]; simp only []; rw [← hmbR, hlo.mbOld q hq, hs2mb]
+  · rw [hE]; simp only []; rw [← hcfR, ← hs2cf]; exact hlo.cmnLo
+  · rw [hE]; simp only []; rw [← hcfR, ← hs2cf]; exact hlo.cmnHi
+  · rw [hE, eR]
+  · rw [hE, eR]
+  · rw [hE, eR]
+  · rw [hE, eR]
+
+/-- feature-side invariant between calls while the utterance is open: `c` cepstral frames have been
+    consumed, the features `0 … c - win - 1` are in `feat_buf[0 ..]` (never wrapped), the first
+    `output_frame` of them have been searched -/
+structure FCore (win : Nat) (s : St) (c : Nat) : Prop where
+  nofault : s.fault = none
+  grow : s.growFeat = true
+  cepLen : s.cepbuf.length = livebuf
+  cur : s.curpos < livebuf
+  fbLen : s.featBuf.length = s.nFeatAlloc
+  outIdx : s.featOutidx = s.outputFrame
+  cnt : s.outputFrame + s.nFeatFrame = c - win
+  room : c - win < s.nFeatAlloc
+  feats : ∀ k, k < c - win → s.featBuf.getD k none = some (canonL win k)
+  moved : s.cmnMoved = false
+
+theorem LiveInv.cur {win c} {s : St} (h : LiveInv win s c) : s.curpos < livebuf := by
+  obtain ⟨_, V, hc, _, _⟩ := h
+  rw [hc]; exact Nat.mod_lt _ (by decide)
+
+/-- the outer bookkeeping shared by the three modes -/
+theorem FCore.step {win c c' ptr m nfv} {s s' : St} {feat : Nat → Feat} {st' : UState} (h : FCore win s c)
+    (ho : CepOut s s' ptr m nfv feat st') (hc' : c' - win = (c - win) + nfv)
+    (hfeat : ∀ t, t < nfv → feat t = canonL win (c - win + t))
+    (hcl : s'.cepbuf.length = livebuf) (hcur : s'.curpos < livebuf) (hmv : s'.cmnMoved = false) :
+    FCore win s' c' := by
+  obtain ⟨cb, bp, cp, fb, a, mb, cf, cm, e⟩ := ho.frame
+  have ho1 := h.outIdx
+  have ho2 := h.cnt
+  refine ⟨by rw [e]; exact h.nofault, by rw [e]; exact h.grow, hcl, hcur, ho.fbLen, by rw [e]; exact h.outIdx, ?_, ?_, ?_, hmv⟩
+  · rw [e]; simp only []; omega
+  · have := ho.room; omega
+  · intro k hk
+    by_cases hk2 : k < c - win
+    · rw [ho.fbOld k (by omega)]; exact h.feats k hk2
+    · have := ho.fbNew (k - (c - win)) (by omega)
+      rw [show s.featOutidx + s.nFeatFrame + (k - (c - win)) = k by omega] at this
+      rw [this, hfeat _ (by omega)]
+      congr 2; omega
+
+theorem processCep_mid (win : Nat) (skip : Nat → Bool) (s : St) (ptr m c : Nat) (h : FCore win s c)
+    (hlive : LiveInv win s c) (hst : s.state = .processing)
+    (hfr : MfcAt s.mfcBuf ptr m c) (hp : ptr + m ≤ s.mfcBuf.length)
+    (hcmn : s.cmnFrames + m ≤ cmnWinHwm) (hfit : m + 2 * win + 1 ≤ livebuf) :
+    let r := processCep true win skip s ptr m
+    r.used = m ∧ FCore win r.st (c + m) ∧ LiveInv win r.st (c + m) ∧
+      CepOut s r.st ptr m ((c + m - win) - (c - win)) (fun t => canonL win (c - win + t)) .processing := by
+  intro r
+  have hr : r = cepFinish true (featLive win skip (cepGrow s (cepNfeat win s m)) ptr m false false
+      (s.featOutidx + s.nFeatFrame)) := by
+    simp only [r]
+    rw [processCep_eq true win skip s ptr m h.grow h.fbLen (by have := h.room; omega) (by have := h.room; have := h.cnt; omega)]
+    rw [hst, show (UState.processing == UState.started) = false by decide,
+      show (UState.processing == UState.ended) = false by decide]
+  have hnf : cepNfeat win s m = m := by simp [cepNfeat, hst]
+  obtain ⟨hext, hroom⟩ := cepGrow_spec s (cepNfeat win s m) h.fbLen (by have := h.room; omega)
+    (by have := h.room; have := h.cnt; omega)
+  rw [hnf] at hext hroom hr
+  obtain ⟨fb0, a0, e0, hl0, hle0, hg0⟩ := hext
+  have ho1 := h.outIdx
+  have ho2 := h.cnt
+  have ha : (cepGrow s m).nFeatAlloc = a0 := by rw [e0]
+  rw [ha] at hroom
+  obtain ⟨lo, hli, hmv⟩ := featLive_mid win skip (cepGrow s m) ptr m (s.featOutidx + s.nFeatFrame) c
+    (hlive.of_eq (by rw [e0]) (by rw [e0]) (by rw [e0])) (by rw [e0]; exact hfr) (by rw [e0]; exact hp)
+    (by rw [e0]; exact h.moved) (by rw [e0]; exact hcmn) hfit
+    (by rw [e0]; simp only []; omega)
+  obtain ⟨f1, f2, f3, f4, f5, f6⟩ := cepFinish_spec true s (cepGrow s m) _ ptr m _ _ ⟨fb0, a0, e0, hl0, hle0, hg0⟩ lo
+    (by rw [ha]; omega) (by have := h.fbLen; have := h.room; omega)
+  rw [← hr] at f1 f2 f3 f4 f5 f6
+  have hst' : (if s.state = .started ∧ (!true || decide (m > 0)) then UState.processing else s.state) = .processing := by
+    simp [hst]
+  rw [hst'] at f2
+  have hli' : LiveInv win r.st (c + m) := hli.of_eq f3 f5 f4
+  exact ⟨f1, h.step f2 (by omega) (fun _ _ => rfl) hli'.1 hli'.cur (by rw [f6]; exact hmv), hli', f2⟩
+
+/-- first frames of the utterance: STARTED → PROCESSING with the start padding -/
+theorem processCep_start (win : Nat) (skip : Nat → Bool) (s : St) (ptr m : Nat) (h : FCore win s 0)
+    (hst : s.state = .started) (hm1 : 1 ≤ m)
+    (hfr : MfcAt s.mfcBuf ptr m 0) (hp : ptr + m ≤ s.mfcBuf.length)
+    (hcmn : s.cmnFrames + m ≤ cmnWinHwm) (hfit : m + 2 * win + 1 ≤ livebuf) :
+    let r := processCep true win skip s ptr m
+    r.used = m ∧ FCore win r.st m ∧ LiveInv win r.st m ∧
+      CepOut s r.st ptr m (m - win) (fun t => canonL win t) .processing := by
+  intro r
+  have ho1 := h.outIdx
+  have ho2 := h.cnt
+  have hroom0 := h.room
+  have hr : r = cepFinish true (featLive win skip (cepGrow s (cepNfeat win s m)) ptr m true false
+      (s.featOutidx + s.nFeatFrame)) := by
+    simp only [r]
+    rw [processCep_eq true win skip s ptr m h.grow h.fbLen (by omega) (by omega)]
+    rw [hst, show (UState.started == UState.started) = true by decide,
+      show (UState.started == UState.ended) = false by decide]
+  have hnf : cepNfeat win s m = (m : Int) - win := by simp [cepNfeat, hst]
+  obtain ⟨hext, hroom⟩ := cepGrow_spec s (cepNfeat win s m) h.fbLen (by omega) (by omega)
+  rw [hnf] at hext hroom hr
+  obtain ⟨fb0, a0, e0, hl0, hle0, hg0⟩ := hext
+  have ha : (cepGrow s ((m : Int) - win)).nFeatAlloc = a0 := by rw [e0]
+  rw [ha] at hroom
+  obtain ⟨lo, hli, hmv⟩ := featLive_begin win skip (cepGrow s ((m : Int) - win)) ptr m (s.featOutidx + s.nFeatFrame)
+    (by rw [e0]; exact h.cepLen) (by rw [e0]; exact h.cur) hm1 (by rw [e0]; exact hfr) (by rw [e0]; exact hp)
+    (by rw [e0]; exact h.moved) (by rw [e0]; exact hcmn) hfit
+    (by rw [e0]; simp only []; omega)
+  obtain ⟨f1, f2, f3, f4, f5, f6⟩ := cepFinish_spec true s (cepGrow s ((m : Int) - win)) _ ptr m _ _
+    ⟨fb0, a0, e0, hl0, hle0, hg0⟩ lo (by rw [ha]; omega) (by have := h.fbLen; omega)
+  rw [← hr] at f1 f2 f3 f4 f5 f6
+  have hst' : (if s.state = .started ∧ (!true || decide (m > 0)) then UState.processing else s.state) = .processing := by
+    have : m > 0 := by omega
+    simp [hst, this]
+  rw [hst'] at f2
+  have hli' : LiveInv win r.st m := hli.of_eq f3 f5 f4
+  refine ⟨f1, h.step f2 (by omega) (fun t _ => ?_) hli'.1 hli'.cur (by rw [f6]; exact hmv), hli', f2⟩
+  rw [show 0 - win + t = t by omega]
+
+/-- a call that brings no frame while STARTED: nothing happens (with the D8 repair the state stays STARTED) -/
+theorem processCep_start0 (win : Nat) (skip : Nat → Bool) (s : St) (ptr : Nat) (h : FCore win s 0)
+    (hst : s.state = .started) :
+    let r := processCep true win skip s ptr 0
+    r.used = 0 ∧ FCore win r.st 0 ∧ CepOut s r.st ptr 0 0 (fun t => canonL win t) .started := by
+  intro r
+  have ho1 := h.outIdx
+  have ho2 := h.cnt
+  have hroom0 := h.room
+  have hr : r = cepFinish true (featLive win skip (cepGrow s (cepNfeat win s 0)) ptr 0 true false
+      (s.featOutidx + s.nFeatFrame)) := by
+    simp only [r]
+    rw [processCep_eq true win skip s ptr 0 h.grow h.fbLen (by omega) (by omega)]
+    rw [hst, show (UState.started == UState.started) = true by decide,
+      show (UState.started == UState.ended) = false by decide]
+  obtain ⟨hext, hroom⟩ := cepGrow_spec s (cepNfeat win s 0) h.fbLen (by omega) (by omega)
+  obtain ⟨fb0, a0, e0, hl0, hle0, hg0⟩ := hext
+  have ha : (cepGrow s (cepNfeat win s 0)).nFeatAlloc = a0 := by rw [e0]
+  have hE : r.st = { s with bufpos := s.curpos, featBuf := fb0, nFeatAlloc := a0 } := by
+    rw [hr, featLive_begin0, e0]
+    simp [cepFinish, hst]
+    omega
+  have hu : r.used = 0 := by rw [hr, featLive_begin0]; rfl
+  have hco : CepOut s r.st ptr 0 0 (fun t => canonL win t) .started := by
+    refine ⟨⟨s.cepbuf, s.curpos, s.curpos, fb0, a0, s.mfcBuf, s.cmnFrames, s.cmnMoved, ?_⟩, ?_, ?_, ?_, ?_, ?_, ?_, ?_, ?_, ?_⟩
+    · rw [hE]; simp only [Nat.add_zero]; rw [← hst]
+    · rw [hE]; exact hl0
+    · rw [hE]; exact hle0
+    · rw [hE]; simp only []; omega
+    · intro t ht; omega
+    · intro q hq; omega
+    · rw [hE]
+    · intro q _; rw [hE]
+    · rw [hE]; exact Nat.le_refl _
+    · rw [hE]; exact Nat.le_refl _
+  exact ⟨hu, h.step hco (by omega) (fun t ht => by omega) (by rw [hE]; exact h.cepLen) (by rw [hE]; exact h.cur)
+    (by rw [hE]; exact h.moved), hco⟩
+
+/-- what the buffers hold once the end padding has been flushed: all `M` canonical features -/
+structure EndCore (win : Nat) (s : St) (M : Nat) : Prop where
+  nofault : s.fault = none
+  grow : s.growFeat = true
+  fbLen : s.featBuf.length = s.nFeatAlloc
+  outIdx : s.featOutidx = s.outputFrame
+  cnt : s.outputFrame + s.nFeatFrame = M
+  room : M < s.nFeatAlloc
+  feats : ∀ k, k < M → s.featBuf.getD k none = some (canon win M k)
+
+/-- the flush at the end of the utterance (state ENDED): `m ≥ 0` last frames plus the end padding -/
+theorem processCep_end (win : Nat) (skip : Nat → Bool) (s : St) (ptr m c : Nat) (h : FCore win s c)
+    (hlive : LiveInv win s c) (hc1 : 1 ≤ c) (hst : s.state = .ended)
+    (hfr : MfcAt s.mfcBuf ptr m c) (hp : ptr + m ≤ s.mfcBuf.length)
+    (hcmn : s.cmnFrames + m ≤ cmnWinHwm) (hfit : m + 3 * win + 1 ≤ livebuf) :
+    let r := processCep true win skip s ptr m
+    r.used = m ∧ EndCore win r.st (c + m) ∧
+      CepOut s r.st ptr m ((c + m) - (c - win)) (fun t => canon win (c + m) (c - win + t)) .ended := by
+  intro r
+  have ho1 := h.outIdx
+  have ho2 := h.cnt
+  have hroom0 := h.room
+  have hr : r = cepFinish true (featLive win skip (cepGrow s (cepNfeat win s m)) ptr m false true
+      (s.featOutidx + s.nFeatFrame)) := by
+    simp only [r]
+    rw [processCep_eq true win skip s ptr m h.grow h.fbLen (by omega) (by omega)]
+    rw [hst, show (UState.ended == UState.started) = false by decide,
+      show (UState.ended == UState.ended) = true by decide]
+  have hnf : cepNfeat win s m = (m : Int) + win := by simp [cepNfeat, hst]
+  obtain ⟨hext, hroom⟩ := cepGrow_spec s (cepNfeat win s m) h.fbLen (by omega) (by omega)
+  rw [hnf] at hext hroom hr
+  obtain ⟨fb0, a0, e0, hl0, hle0, hg0⟩ := hext
+  have ha : (cepGrow s ((m : Int) + win)).nFeatAlloc = a0 := by rw [e0]
+  rw [ha] at hroom
+  have lo := featLive_end win skip (cepGrow s ((m : Int) + win)) ptr m (s.featOutidx + s.nFeatFrame) c
+    (hlive.of_eq (by rw [e0]) (by rw [e0]) (by rw [e0])) hc1 (by rw [e0]; exact hfr) (by rw [e0]; exact hp)
+    (by rw [e0]; exact h.moved) (by rw [e0]; exact hcmn) hfit
+    (by rw [e0]; simp only []; omega)
+  obtain ⟨f1, f2, -, -, -, -⟩ := cepFinish_spec true s (cepGrow s ((m : Int) + win)) _ ptr m _ _
+    ⟨fb0, a0, e0, hl0, hle0, hg0⟩ lo (by rw [ha]; omega) (by have := h.fbLen; omega)
+  rw [← hr] at f1 f2
+  have hst' : (if s.state = .started ∧ (!true || decide (m > 0)) then UState.processing else s.state) = .ended := by
+    simp [hst]
+  rw [hst'] at f2
+  refine ⟨f1, ?_, f2⟩
+  obtain ⟨cb, bp, cp, fb, a, mb, cf, cm, e⟩ := f2.frame
+  refine ⟨by rw [e]; exact h.nofault, by rw [e]; exact h.grow, f2.fbLen, by rw [e]; exact h.outIdx, ?_, ?_, ?_⟩
+  · rw [e]; simp only []; omega
+  · have := f2.room; omega
+  · intro k hk
+    by_cases hk2 : k < c - win
+    · rw [f2.fbOld k (by omega), h.feats k hk2]
+      congr 1
+      exact canonL_eq_canon win (c + m) k (by omega)
+    · have := f2.fbNew (k - (c - win)) (by omega)
+      rw [show s.featOutidx + s.nFeatFrame + (k - (c - win)) = k by omega] at this
+      rw [this]
+      congr 2; omega
+
+/-! ## the search side -/
+
+/-- the queue discipline of `feat_buf` when it never wraps -/
+structure QInv (s : St) : Prop where
+  nofault : s.fault = none
+  fbLen : s.featBuf.length = s.nFeatAlloc
+  outIdx : s.featOutidx = s.outputFrame
+  room : s.outputFrame + s.nFeatFrame < s.nFeatAlloc
+
+/-- every first-pass search step so far read `feat_buf[k]` for its frame `k`, in order, each once -/
+def SearchedOK (s : St) : Prop :=
+  s.searched = (List.range s.outputFrame).map fun k => (k, s.featBuf.getD k none)
+
+/-- every alignment pass read `feat_buf[k]` for the frames `k` below some `p ≤ output_frame` -/
+def AlignedOK (s : St) : Prop :=
+  ∀ l, l ∈ s.aligned → ∃ p, p ≤ s.outputFrame ∧ l = (List.range p).map fun k => (k, s.featBuf.getD k none)
+
+theorem scoreRead_eq (s : St) (h : QInv s) (hn : 1 ≤ s.nFeatFrame) :
+    scoreRead s = some (s.outputFrame, s.featBuf.getD s.outputFrame none) := by
+  have h1 := h.fbLen
+  have h2 := h.outIdx
+  have h3 := h.room
+  have hidx : featIdx s s.outputFrame = some s.outputFrame := by
+    unfold featIdx
+    have c1 : ¬ ((s.outputFrame : Int) - (s.outputFrame : Int) > (s.nFeatAlloc : Int) - (s.nFeatFrame : Int)) := by omega
+    have c2 : ¬ s.nFeatAlloc = 0 := by omega
+    simp only [c1, c2, if_false]
+    congr 1
+    rw [h2]
+    have : ((s.outputFrame : Int) + (s.outputFrame : Int) - (s.outputFrame : Int)) = (s.outputFrame : Int) := by omega
+    rw [this, Int.emod_eq_of_lt (by omega) (by omega)]
+    simp
+  unfold scoreRead
+  rw [hidx]
+  simp only []
+  rw [if_pos (by omega)]
+
+theorem advance_eq (s : St) (h : QInv s) (hn : 1 ≤ s.nFeatFrame) :
+    advance s = { s with featOutidx := s.featOutidx + 1, nFeatFrame := s.nFeatFrame - 1, outputFrame := s.outputFrame + 1 } := by
+  have h2 := h.outIdx
+  have h3 := h.room
+  unfold advance
+  rw [if_neg (by omega), if_neg (by omega)]
+
+theorem QInv.withSearched {s : St} (h : QInv s) (sr : List (Nat × Option Feat)) : QInv { s with searched := sr } :=
+  ⟨h.nofault, h.fbLen, h.outIdx, h.room⟩
+
+theorem searchN_spec : ∀ (n : Nat) (s : St), QInv s → n ≤ s.nFeatFrame → SearchedOK s →
+    ∃ sr, searchN n s = { s with searched := sr, featOutidx := s.featOutidx + n, nFeatFrame := s.nFeatFrame - n,
+                                 outputFrame := s.outputFrame + n } ∧
+      sr = (List.range (s.outputFrame + n)).map fun k => (k, s.featBuf.getD k none) := by
+  intro n
+  induction n with
+  | zero =>
+    intro s _ _ hs
+    exact ⟨s.searched, by simp [searchN], by simpa [SearchedOK] using hs⟩
+  | succ n ih =>
+    intro s hq hn hs
+    have hadv := advance_eq _ (hq.withSearched (s.searched ++ [(s.outputFrame, s.featBuf.getD s.outputFrame none)]))
+      (by simp only []; omega)
+    simp only [] at hadv
+    have hq' : QInv { s with searched := s.searched ++ [(s.outputFrame, s.featBuf.getD s.outputFrame none)],
+                             featOutidx := s.featOutidx + 1, nFeatFrame := s.nFeatFrame - 1,
+                             outputFrame := s.outputFrame + 1 } :=
+      ⟨hq.nofault, hq.fbLen, by simp only []; rw [hq.outIdx], by have := hq.room; simp only []; omega⟩
+    obtain ⟨sr, e, hsr⟩ := ih _ hq' (by simp only []; omega)
+      (by
+        unfold SearchedOK at *
+        simp only []
+        rw [hs, List.range_succ, List.map_append]
+        rfl)
+    simp only [] at e hsr
+    refine ⟨sr, ?_, ?_⟩
+    · simp only [searchN, scoreRead_eq s hq (by omega)]
+      rw [hadv, e]
+      congr 1 <;> omega
+    · rw [hsr, show s.outputFrame + 1 + n = s.outputFrame + (n + 1) by omega]
+
+theorem searchForward_spec (s : St) (hq : QInv s) (hs : SearchedOK s) :
+    searchForward s = { s with searched := (List.range (s.outputFrame + s.nFeatFrame)).map fun k => (k, s.featBuf.getD k none),
+                               featOutidx := s.featOutidx + s.nFeatFrame, nFeatFrame := 0,
+                               outputFrame := s.outputFrame + s.nFeatFrame } := by
+  obtain ⟨sr, e, hsr⟩ := searchN_spec s.nFeatFrame s hq (Nat.le_refl _) hs
+  unfold searchForward
+  rw [e, hsr, Nat.sub_self]
+
+theorem filter_lt_range (u : Nat) : ∀ n, (List.range n).filter (fun k => decide (k < u)) = List.range (min u n) := by
+  intro n
+  induction n with
+  | zero => simp
+  | succ n ih =>
+    rw [List.range_succ, List.filter_append, ih]
+    by_cases h : n < u
+    · rw [show min u (n + 1) = n + 1 by omega, show min u n = n by omega, List.range_succ]
+      simp [h]
+    · rw [show min u (n + 1) = u by omega, show min u n = u by omega]
+      simp [h]
+
+theorem alignN_spec (upto : Nat) : ∀ (n : Nat) (s : St) (acc : List (Nat × Option Feat)), QInv s → n ≤ s.nFeatFrame →
+    alignN n upto s acc =
+      ({ s with featOutidx := s.featOutidx + n, nFeatFrame := s.nFeatFrame - n, outputFrame := s.outputFrame + n },
+       acc ++ ((List.range' s.outputFrame n).filter fun k => decide (k < upto)).map fun k => (k, s.featBuf.getD k none)) := by
+  intro n
+  induction n with
+  | zero => intro s acc _ _; simp [alignN]
+  | succ n ih =>
+    intro s acc hq hn
+    have hadv := advance_eq s hq (by omega)
+    have hq' : QInv { s with featOutidx := s.featOutidx + 1, nFeatFrame := s.nFeatFrame - 1,
+                             outputFrame := s.outputFrame + 1 } :=
+      ⟨hq.nofault, hq.fbLen, by simp only []; rw [hq.outIdx], by have := hq.room; simp only []; omega⟩
+    by_cases hu : s.outputFrame < upto
+    · simp only [alignN, hu, if_true, scoreRead_eq s hq (by omega)]
+      rw [hadv, ih _ _ hq' (by simp only []; omega)]
+      simp only [List.range'_succ, List.filter_cons, hu, decide_true, if_true, List.map_cons, List.append_assoc,
+        List.singleton_append]
+      congr 2 <;> omega
+    · simp only [alignN, hu, if_false]
+      rw [hadv, ih _ _ hq' (by simp only []; omega)]
+      simp only [List.range'_succ, List.filter_cons, hu, decide_false, if_false, Bool.false_eq_true]
+      congr 2 <;> omega
+
+/-- an alignment pass reads `feat_buf[k]` for the frames below `min upto output_frame` and puts every
+    counter back where it was -/
+theorem alignPass_spec (s : St) (upto : Nat) (hq : QInv s) :
+    alignPass s upto =
+      { s with aligned := s.aligned ++ [(List.range (min upto s.outputFrame)).map fun k => (k, s.featBuf.getD k none)] } := by
+  have hroom := hq.room
+  have hq1 : QInv { s with nFeatFrame := s.outputFrame + s.nFeatFrame, featOutidx := 0, outputFrame := 0 } :=
+    ⟨hq.nofault, hq.fbLen, rfl, by simp only []; omega⟩
+  unfold alignPass
+  rw [if_neg (by omega)]
+  simp only []
+  rw [alignN_spec upto s.outputFrame _ [] hq1 (by simp only []; omega)]
+  simp only [List.nil_append, Nat.zero_add, Nat.add_sub_cancel_left, ← List.range_eq_range', filter_lt_range]
+  rw [← hq.outIdx]
+
+/-! ## `acmod_process_mfcbuf` -/
+
+/-- the cepstrum ring: `nMfcFrame` fresh frames `c, c+1, …` starting at `mfcOutidx`; `nextId` counts them -/
+structure MfcInv (s : St) (c : Nat) : Prop where
+  len : s.mfcBuf.length = nMfc
+  alloc : s.nMfcAlloc = nMfc
+  out : s.mfcOutidx < nMfc
+  cnt : s.nMfcFrame ≤ nMfc
+  next : s.nextId = c + s.nMfcFrame
+  frames : ∀ i, i < s.nMfcFrame → s.mfcBuf.getD ((s.mfcOutidx + i) % nMfc) none = some ⟨c + i, 0, false⟩
+
+/-- what a processing call keeps of the outer state -/
+structure Keep (s s' : St) (k : Nat) : Prop where
+  searched : s'.searched = s.searched
+  aligned : s'.aligned = s.aligned
+  outFrame : s'.outputFrame = s.outputFrame
+  cmnLo : s.cmnFrames ≤ s'.cmnFrames
+  cmnHi : s'.cmnFrames ≤ s.cmnFrames + k
+  fbOld : ∀ q, q < s.featOutidx + s.nFeatFrame → s'.featBuf.getD q none = s.featBuf.getD q none
+  queue : s.featOutidx + s.nFeatFrame ≤ s'.featOutidx + s'.nFeatFrame
+  outIdx : s'.featOutidx = s.featOutidx
+
+theorem Keep.refl (s : St) : Keep s s 0 :=
+  ⟨rfl, rfl, rfl, Nat.le_refl _, Nat.le_refl _, fun _ _ => rfl, Nat.le_refl _, rfl⟩
+
+theorem Keep.trans {s s' s'' : St} {k k' : Nat} (h1 : Keep s s' k) (h2 : Keep s' s'' k') : Keep s s'' (k + k') := by
+  refine ⟨h2.searched.trans h1.searched, h2.aligned.trans h1.aligned, h2.outFrame.trans h1.outFrame,
+    Nat.le_trans h1.cmnLo h2.cmnLo, ?_, ?_, Nat.le_trans h1.queue h2.queue,
+    h2.outIdx.trans h1.outIdx⟩
+  · have := h1.cmnHi; have := h2.cmnHi; omega
+  · intro q hq
+    have := h1.queue
+    rw [h2.fbOld q (by omega), h1.fbOld q hq]
+
+theorem Keep.mono {s s' : St} {k k' : Nat} (h : Keep s s' k) (hk : k ≤ k') : Keep s s' k' :=
+  { h with cmnHi := by have := h.cmnHi; omega }
+
+theorem CepOut.keep {s s' : St} {ptr m nfv feat st'} (h : CepOut s s' ptr m nfv feat st') : Keep s s' m := by
+  obtain ⟨cb, bp, cp, fb, a, mb, cf, cm, e⟩ := h.frame
+  refine ⟨by rw [e], by rw [e], by rw [e], h.cmnLo, h.cmnHi, h.fbOld, ?_, by rw [e]⟩
+  rw [e]; simp only []; omega
+
+/-- bookkeeping of `acmod_process_mfcbuf` after a call that consumed `k` contiguous frames -/
+theorem MfcInv.consume {s s1 : St} {c k nfv : Nat} {feat : Nat → Feat} {st' : UState} (h : MfcInv s c)
+    (ho : CepOut s s1 s.mfcOutidx k nfv feat st') (hk : k ≤ s.nMfcFrame) (hfit : s.mfcOutidx + k ≤ nMfc) :
+    afterCep s1 k = { s1 with nMfcFrame := s.nMfcFrame - k, mfcOutidx := (s.mfcOutidx + k) % nMfc } ∧
+    MfcInv { s1 with nMfcFrame := s.nMfcFrame - k, mfcOutidx := (s.mfcOutidx + k) % nMfc } (c + k) := by
+  obtain ⟨cb, bp, cp, fb, a, mb, cf, cm, e⟩ := ho.frame
+  have e1 : s1.nMfcFrame = s.nMfcFrame := by rw [e]
+  have e2 : s1.mfcOutidx = s.mfcOutidx := by rw [e]
+  have e3 : s1.nMfcAlloc = s.nMfcAlloc := by rw [e]
+  have e4 : s1.nextId = s.nextId := by rw [e]
+  have hn := h.next
+  have hc := h.cnt
+  constructor
+  · unfold afterCep
+    rw [if_pos (by omega), e1, e2, e3, h.alloc]
+  · refine ⟨by simp only []; rw [ho.mbLen, h.len], by simp only []; rw [e3, h.alloc], Nat.mod_lt _ (by decide),
+      by simp only []; omega, by simp only []; omega, ?_⟩
+    intro i hi
+    simp only [] at hi ⊢
+    have hpos : ((s.mfcOutidx + k) % nMfc + i) % nMfc = (s.mfcOutidx + (k + i)) % nMfc := by
+      simp only [nMfc]; omega
+    rw [hpos, ho.mbOld _ (by have := h.out; simp only [nMfc] at *; omega), h.frames (k + i) (by omega)]
+    congr 2; omega
+
+theorem MfcInv.at {s : St} {c : Nat} (h : MfcInv s c) (k : Nat) (hk : k ≤ s.nMfcFrame) (hfit : s.mfcOutidx + k ≤ nMfc) :
+    MfcAt s.mfcBuf s.mfcOutidx k c := by
+  intro i hi
+  have := h.frames i (by omega)
+  rwa [Nat.mod_eq_of_lt (by omega)] at this
+
+theorem FCore.setMfc {win c} {s : St} (h : FCore win s c) (a b : Nat) : FCore win { s with nMfcFrame := a, mfcOutidx := b } c :=
+  ⟨h.nofault, h.grow, h.cepLen, h.cur, h.fbLen, h.outIdx, h.cnt, h.room, h.feats, h.moved⟩
+
+theorem Keep.setMfc {s s' : St} {k : Nat} (h : Keep s s' k) (a b : Nat) : Keep s { s' with nMfcFrame := a, mfcOutidx := b } k :=
+  ⟨h.searched, h.aligned, h.outFrame, h.cmnLo, h.cmnHi, h.fbOld, h.queue, h.outIdx⟩
+
+/-- the invariant while the utterance is in the PROCESSING state -/
+structure PInv (win : Nat) (s : St) (c : Nat) : Prop where
+  core : FCore win s c
+  live : LiveInv win s c
+  st : s.state = .processing
+  c1 : 1 ≤ c
+  mfc : MfcInv s c
+
+/-- one `acmod_process_cep` call on `k` contiguous frames of the ring plus the bookkeeping after it -/
+theorem consume_mid (win : Nat) (skip : Nat → Bool) (s : St) (c k : Nat) (h : PInv win s c) (hk : k ≤ s.nMfcFrame)
+    (hfit : s.mfcOutidx + k ≤ nMfc) (hcmn : s.cmnFrames + k ≤ cmnWinHwm) (hw : nMfc + 2 * win + 1 ≤ livebuf) :
+    let r := processCep true win skip s s.mfcOutidx k
+    let s' := afterCep r.st r.used
+    PInv win s' (c + k) ∧ s'.nMfcFrame = s.nMfcFrame - k ∧ s'.mfcOutidx = (s.mfcOutidx + k) % nMfc ∧ Keep s s' k := by
+  intro r s'
+  have hm := h.mfc
+  obtain ⟨f1, f2, f3, f4⟩ := processCep_mid win skip s s.mfcOutidx k c h.core h.live h.st (hm.at k hk hfit)
+    (by rw [hm.len]; exact hfit) hcmn (by have := hm.cnt; omega)
+  obtain ⟨g1, g2⟩ := hm.consume f4 hk hfit
+  have hs' : s' = { r.st with nMfcFrame := s.nMfcFrame - k, mfcOutidx := (s.mfcOutidx + k) % nMfc } := by
+    simp only [s']; rw [f1]; exact g1
+  obtain ⟨cb, bp, cp, fb, a, mb, cf, cm, e⟩ := f4.frame
+  rw [hs']
+  refine ⟨⟨f2.setMfc _ _, f3.of_eq rfl rfl rfl, ?_, by have := h.c1; omega, g2⟩, rfl, rfl, f4.keep.setMfc _ _⟩
+  simp only []; rw [e]
+
+theorem St.setState_self (x : St) (st : UState) (h : x.state = st) : { x with state := st } = x := by
+  cases x; simp_all
+
+/-- `acmod_process_mfcbuf` in the PROCESSING state: every frame of the ring is consumed, in one call or,
+    when they wrap around the end of `mfc_buf`, in two -/
+theorem processMfcbuf_mid (win : Nat) (skip : Nat → Bool) (s : St) (c : Nat) (h : PInv win s c)
+    (hcmn : s.cmnFrames + s.nMfcFrame ≤ cmnWinHwm) (hw : nMfc + 2 * win + 1 ≤ livebuf) :
+    let r := processMfcbuf true win skip s
+    PInv win r.st (c + s.nMfcFrame) ∧ r.st.nMfcFrame = 0 ∧ Keep s r.st s.nMfcFrame := by
+  intro r
+  have hm := h.mfc
+  have hal := hm.alloc
+  have hcnt := hm.cnt
+  have hout := hm.out
+  by_cases hwrap : s.mfcOutidx + s.nMfcFrame > s.nMfcAlloc
+  · -- two parts
+    rw [hal] at hwrap
+    obtain ⟨p1, p2, p3, p4⟩ := consume_mid win skip s c (nMfc - s.mfcOutidx) h (by omega) (by omega) (by omega) hw
+    have hu1 : (processCep true win skip s s.mfcOutidx (nMfc - s.mfcOutidx)).used = nMfc - s.mfcOutidx :=
+      (processCep_mid win skip s s.mfcOutidx (nMfc - s.mfcOutidx) c h.core h.live h.st
+        (hm.at _ (by omega) (by omega)) (by rw [hm.len]; omega) (by omega) (by omega)).1
+    -- the state handed to the second call
+    generalize hs1def : afterCep (processCep true win skip s s.mfcOutidx (nMfc - s.mfcOutidx)).st
+      (processCep true win skip s s.mfcOutidx (nMfc - s.mfcOutidx)).used = s1 at p1 p2 p3 p4
+    have hs1 : ({ s1 with state := s.state } : St) = s1 := St.setState_self _ _ (by rw [h.st]; exact p1.st)
+    have ho1 : s1.mfcOutidx = 0 := by
+      rw [p3]; simp only [nMfc] at *; omega
+    have hn1 : s1.nMfcFrame = s.nMfcFrame - (nMfc - s.mfcOutidx) := p2
+    have hk1 := p4.cmnHi
+    obtain ⟨q1, q2, q3, q4⟩ := consume_mid win skip s1 (c + (nMfc - s.mfcOutidx)) s1.nMfcFrame p1 (Nat.le_refl _)
+      (by rw [ho1]; have := p1.mfc.cnt; omega) (by omega) hw
+    have hr : r = ⟨afterCep (processCep true win skip s1 s1.mfcOutidx s1.nMfcFrame).st
+        (processCep true win skip s1 s1.mfcOutidx s1.nMfcFrame).used,
+        (processCep true win skip s1 s1.mfcOutidx s1.nMfcFrame).used⟩ := by
+      simp only [r, processMfcbuf, hal, hwrap, if_true, h.st, (by decide : ¬ UState.processing = UState.ended), if_false]
+      rw [hu1] at hs1def
+      rw [hu1, hs1def, ← h.st, hs1, hn1]
+    rw [hr]
+    simp only []
+    refine ⟨?_, by rw [q2]; omega, ?_⟩
+    · rw [show c + s.nMfcFrame = c + (nMfc - s.mfcOutidx) + s1.nMfcFrame by omega]; exact q1
+    · exact (p4.trans q4).mono (by omega)
+  · rw [hal] at hwrap
+    obtain ⟨p1, p2, p3, p4⟩ := consume_mid win skip s c s.nMfcFrame h (Nat.le_refl _) (by omega) hcmn hw
+    have hr : r = ⟨afterCep (processCep true win skip s s.mfcOutidx s.nMfcFrame).st
+        (processCep true win skip s s.mfcOutidx s.nMfcFrame).used,
+        (processCep true win skip s s.mfcOutidx s.nMfcFrame).used⟩ := by
+      simp only [r, processMfcbuf, hal, hwrap, if_false]
+    rw [hr]
+    simp only []
+    exact ⟨p1, by rw [p2]; omega, p4⟩
+
+/-- the invariant while the utterance is still in the STARTED state: no frame consumed so far -/
+structure SInv (win : Nat) (s : St) : Prop where
+  core : FCore win s 0
+  st : s.state = .started
+  mfc : MfcInv s 0
+  out0 : s.mfcOutidx = 0
+
+theorem processMfcbuf_single (fix : Bool) (win : Nat) (skip : Nat → Bool) (s : St) (h : ¬ s.mfcOutidx + s.nMfcFrame > s.nMfcAlloc) :
+    processMfcbuf fix win skip s = ⟨afterCep (processCep fix win skip s s.mfcOutidx s.nMfcFrame).st
+      (processCep fix win skip s s.mfcOutidx s.nMfcFrame).used, (processCep fix win skip s s.mfcOutidx s.nMfcFrame).used⟩ := by
+  simp only [processMfcbuf, h, if_false]
+
+/-- STARTED with at least one frame in the ring: they become the start of the utterance -/
+theorem processMfcbuf_start (win : Nat) (skip : Nat → Bool) (s : St) (h : SInv win s) (hn : 1 ≤ s.nMfcFrame)
+    (hcmn : s.cmnFrames + s.nMfcFrame ≤ cmnWinHwm) (hw : nMfc + 2 * win + 1 ≤ livebuf) :
+    let r := processMfcbuf true win skip s
+    PInv win r.st s.nMfcFrame ∧ r.st.nMfcFrame = 0 ∧ Keep s r.st s.nMfcFrame := by
+  intro r
+  have hm := h.mfc
+  have hcnt := hm.cnt
+  have hr : r = _ := processMfcbuf_single true win skip s (by rw [hm.alloc, h.out0]; omega)
+  obtain ⟨f1, f2, f3, f4⟩ := processCep_start win skip s s.mfcOutidx s.nMfcFrame h.core h.st hn
+    (hm.at _ (Nat.le_refl _) (by rw [h.out0]; omega)) (by rw [hm.len, h.out0]; omega) hcmn (by omega)
+  obtain ⟨g1, g2⟩ := hm.consume f4 (Nat.le_refl _) (by rw [h.out0]; omega)
+  obtain ⟨cb, bp, cp, fb, a, mb, cf, cm, e⟩ := f4.frame
+  rw [hr]
+  simp only []
+  rw [f1, g1]
+  refine ⟨⟨f2.setMfc _ _, f3.of_eq rfl rfl rfl, by simp only []; rw [e], hn, ?_⟩, by simp, f4.keep.setMfc _ _⟩
+  simpa using g2
+
+/-- STARTED with an empty ring (a call that yielded no frame): the utterance is still at its start -/
+theorem processMfcbuf_start0 (win : Nat) (skip : Nat → Bool) (s : St) (h : SInv win s) (hn : s.nMfcFrame = 0) :
+    let r := processMfcbuf true win skip s
+    SInv win r.st ∧ r.st.nMfcFrame = 0 ∧ Keep s r.st 0 := by
+  intro r
+  have hm := h.mfc
+  have hr : r = _ := processMfcbuf_single true win skip s (by rw [hm.alloc, h.out0, hn]; omega)
+  rw [hn] at hr
+  obtain ⟨f1, f2, f4⟩ := processCep_start0 win skip s s.mfcOutidx h.core h.st
+  have hm0 : MfcInv s 0 := hm
+  obtain ⟨g1, g2⟩ := hm.consume f4 (by omega) (by rw [h.out0]; omega)
+  obtain ⟨cb, bp, cp, fb, a, mb, cf, cm, e⟩ := f4.frame
+  rw [hr]
+  simp only []
+  rw [f1, g1]
+  have hmod : (s.mfcOutidx + 0) % nMfc = 0 := by rw [h.out0]; rfl
+  refine ⟨⟨f2.setMfc _ _, by simp only []; rw [e], by simpa using g2, hmod⟩, by simp [hn], f4.keep.setMfc _ _⟩
+
+/-- ENDED: the (at most one, never wrapping) last frames and the end padding -/
+theorem processMfcbuf_end (win : Nat) (skip : Nat → Bool) (s : St) (c : Nat) (hc : FCore win s c) (hl : LiveInv win s c)
+    (hc1 : 1 ≤ c) (hst : s.state = .ended) (hm : MfcInv s c) (hfit : s.mfcOutidx + s.nMfcFrame ≤ nMfc)
+    (hcmn : s.cmnFrames + s.nMfcFrame ≤ cmnWinHwm) (hw : nMfc + 3 * win + 1 ≤ livebuf) :
+    let r := processMfcbuf true win skip s
+    EndCore win r.st (c + s.nMfcFrame) ∧ r.st.nMfcFrame = 0 ∧ Keep s r.st s.nMfcFrame ∧ r.st.state = .ended ∧
+      r.st.nextId = c + s.nMfcFrame := by
+  intro r
+  have hcnt := hm.cnt
+  have hr : r = _ := processMfcbuf_single true win skip s (by rw [hm.alloc]; omega)
+  obtain ⟨f1, f2, f4⟩ := processCep_end win skip s s.mfcOutidx s.nMfcFrame c hc hl hc1 hst
+    (hm.at _ (Nat.le_refl _) hfit) (by rw [hm.len]; exact hfit) hcmn (by omega)
+  obtain ⟨g1, g2⟩ := hm.consume f4 (Nat.le_refl _) hfit
+  obtain ⟨cb, bp, cp, fb, a, mb, cf, cm, e⟩ := f4.frame
+  rw [hr]
+  simp only []
+  rw [f1, g1]
+  refine ⟨⟨f2.nofault, f2.grow, f2.fbLen, f2.outIdx, f2.cnt, f2.room, f2.feats⟩, by simp, f4.keep.setMfc _ _,
+    by simp only []; rw [e], ?_⟩
+  simp only []; rw [e]; exact hm.next
+
+/-! ## the front end filling the cepstrum ring (`acmod_process_raw`) -/
+
+/-- number of frames a list of front-end responses offers (the model never takes more than the limit) -/
+def offered (rs : List FeResp) : Nat := (rs.map fun r => r.nvec).sum
+
+theorem offered_pop (rs : List FeResp) : (popResp rs).1.nvec + offered (popResp rs).2 = offered rs := by
+  cases rs with
+  | nil => simp [popResp, offered]
+  | cons r rs => simp [popResp, offered]
+
+theorem popResp_length (rs : List FeResp) : (popResp rs).2.length ≤ rs.length := by
+  cases rs with
+  | nil => simp [popResp]
+  | cons r rs => simp [popResp]
+
+/-- one front-end call writing `k` frames at `inptr = (mfcOutidx + nMfcFrame) % nMfc`, not across the end -/
+theorem MfcInv.feWrite {s : St} {c : Nat} (h : MfcInv s c) (k inptr : Nat) (hin : inptr = (s.mfcOutidx + s.nMfcFrame) % nMfc)
+    (hk : inptr + k ≤ nMfc) (hroom : s.nMfcFrame + k ≤ nMfc) :
+    ∃ mb, { feWrite k inptr s with nMfcFrame := (feWrite k inptr s).nMfcFrame + k } =
+        { s with mfcBuf := mb, nextId := s.nextId + k, nMfcFrame := s.nMfcFrame + k } ∧
+      MfcInv { s with mfcBuf := mb, nextId := s.nextId + k, nMfcFrame := s.nMfcFrame + k } c := by
+  obtain ⟨mb, e, hl, h1, h2⟩ := feWrite_spec k inptr s (by rw [h.len]; exact hk)
+  refine ⟨mb, by rw [e], ⟨by simp only []; rw [hl, h.len], h.alloc, h.out, hroom, by simp only []; have := h.next; omega, ?_⟩⟩
+  intro i hi
+  simp only [] at hi ⊢
+  have ho := h.out
+  by_cases hia : i < s.nMfcFrame
+  · rw [h2 _ (by subst hin; simp only [nMfc] at *; omega)]
+    exact h.frames i hia
+  · have hpos : (s.mfcOutidx + i) % nMfc = inptr + (i - s.nMfcFrame) := by
+      subst hin; simp only [nMfc] at *; omega
+    rw [hpos, h1 _ (by omega)]
+    congr 2
+    have := h.next; omega
+
+theorem rawLoop_spec : ∀ (fuel : Nat) (s : St) (c inptr ncep : Nat) (rs : List FeResp) (more : Bool), MfcInv s c →
+    inptr = (s.mfcOutidx + s.nMfcFrame) % nMfc → ncep = nMfc - s.nMfcFrame → ncep + 1 ≤ fuel →
+    ∃ mb a, (rawLoop fuel s inptr ncep rs more).1 = { s with mfcBuf := mb, nextId := c + a, nMfcFrame := a } ∧
+      MfcInv { s with mfcBuf := mb, nextId := c + a, nMfcFrame := a } c ∧ s.nMfcFrame ≤ a ∧
+      a + offered (rawLoop fuel s inptr ncep rs more).2.1 ≤ s.nMfcFrame + offered rs ∧
+      (rawLoop fuel s inptr ncep rs more).2.1.length ≤ rs.length ∧
+      ((rawLoop fuel s inptr ncep rs more).2.2.2.2.2 = false →
+        (rawLoop fuel s inptr ncep rs more).2.2.2.1 = (s.mfcOutidx + a) % nMfc ∧
+        (rawLoop fuel s inptr ncep rs more).2.2.2.2.1 = nMfc - a ∧
+        (rawLoop fuel s inptr ncep rs more).2.2.2.1 + (rawLoop fuel s inptr ncep rs more).2.2.2.2.1 ≤ nMfc) ∧
+      ((rawLoop fuel s inptr ncep rs more).2.2.2.2.2 = true → (rawLoop fuel s inptr ncep rs more).2.1.length < rs.length ∨
+        (rs = [] ∧ (rawLoop fuel s inptr ncep rs more).2.2.1 = false)) := by
+  intro fuel
+  induction fuel with
+  | zero => intro s c inptr ncep rs more _ _ _ hf; omega
+  | succ fuel ih =>
+    intro s c inptr ncep rs more hm hin hnc hf
+    have hal := hm.alloc
+    have hnext := hm.next
+    have hcnt := hm.cnt
+    have hout := hm.out
+    have hin_lt : inptr < nMfc := by rw [hin]; exact Nat.mod_lt _ (by decide)
+    by_cases hwrap : inptr + ncep > s.nMfcAlloc
+    · rw [hal] at hwrap
+      -- one limited call
+      have hlim : inptr + min (popResp rs).1.nvec (nMfc - inptr) ≤ nMfc := by omega
+      have hroom : s.nMfcFrame + min (popResp rs).1.nvec (nMfc - inptr) ≤ nMfc := by omega
+      obtain ⟨mb, e, hm'⟩ := hm.feWrite (min (popResp rs).1.nvec (nMfc - inptr)) inptr hin hlim hroom
+      by_cases hz : min (popResp rs).1.nvec (nMfc - inptr) = 0
+      · -- goto alldone
+        have hR : rawLoop (fuel + 1) s inptr ncep rs more =
+            ({ feWrite 0 inptr s with nMfcFrame := (feWrite 0 inptr s).nMfcFrame + 0 }, (popResp rs).2, (popResp rs).1.more,
+              inptr, ncep, true) := by
+          simp only [rawLoop, hal, hwrap, if_true, hz]
+        rw [hz] at e hm'
+        rw [hR]
+        simp only []
+        refine ⟨mb, s.nMfcFrame, ?_, ?_, Nat.le_refl _, ?_, popResp_length rs, by simp, ?_⟩
+        · rw [e]; simp only [Nat.add_zero]; rw [hnext]
+        · simpa [hnext] using hm'
+        · have := offered_pop rs; omega
+        · intro _
+          cases rs with
+          | nil => right; exact ⟨rfl, rfl⟩
+          | cons r rs => left; simp [popResp]
+      · -- some frames, loop again
+        have hR : rawLoop (fuel + 1) s inptr ncep rs more =
+            rawLoop fuel { feWrite (min (popResp rs).1.nvec (nMfc - inptr)) inptr s with
+                nMfcFrame := (feWrite (min (popResp rs).1.nvec (nMfc - inptr)) inptr s).nMfcFrame +
+                  min (popResp rs).1.nvec (nMfc - inptr) }
+              ((inptr + min (popResp rs).1.nvec (nMfc - inptr)) % nMfc) (ncep - min (popResp rs).1.nvec (nMfc - inptr))
+              (popResp rs).2 (popResp rs).1.more := by
+          simp only [rawLoop, hal, hwrap, if_true, hz, if_false]
+          have : (feWrite (min (popResp rs).1.nvec (nMfc - inptr)) inptr s).nMfcAlloc = nMfc := by
+            obtain ⟨mb0, e0, _⟩ := feWrite_spec (min (popResp rs).1.nvec (nMfc - inptr)) inptr s (by rw [hm.len]; omega)
+            rw [e0]; exact hal
+          simp only [this]
+        rw [hR, e]
+        obtain ⟨mb2, a2, i1, i2, i3, i4, i5, i6, i7⟩ := ih _ c ((inptr + min (popResp rs).1.nvec (nMfc - inptr)) % nMfc)
+          (ncep - min (popResp rs).1.nvec (nMfc - inptr)) (popResp rs).2 (popResp rs).1.more hm'
+          (by simp only []; subst hin; simp only [nMfc] at *; omega) (by simp only []; omega) (by omega)
+        simp only [] at i1 i2 i3 i4 i5 i6 i7
+        refine ⟨mb2, a2, by rw [i1], i2, by omega, ?_, ?_, ?_, ?_⟩
+        · have := offered_pop rs
+          have hmin : min (popResp rs).1.nvec (nMfc - inptr) ≤ (popResp rs).1.nvec := Nat.min_le_left _ _
+          omega
+        · have := popResp_length rs; omega
+        · intro hd
+          exact i6 hd
+        · intro hd
+          cases rs with
+          | nil => exfalso; simp [popResp] at hz
+          | cons r rs =>
+            left
+            have : ((popResp (r :: rs)).2).length < (r :: rs).length := by simp [popResp]
+            omega
+    · rw [hal] at hwrap
+      have hR : rawLoop (fuel + 1) s inptr ncep rs more = (s, rs, more, inptr, ncep, false) := by
+        simp only [rawLoop, hal, hwrap, if_false]
+      rw [hR]
+      simp only []
+      refine ⟨s.mfcBuf, s.nMfcFrame, ?_, ?_, Nat.le_refl _, Nat.le_refl _, Nat.le_refl _, ?_, by simp⟩
+      · rw [← hnext]
+      · rw [← hnext]; exact hm
+      · intro _; exact ⟨hin, hnc, by omega⟩
+
+/-- the front-end part of `acmod_process_raw` on an empty ring: some `a ≤ nMfc` fresh frames, then `acmod_process_mfcbuf` -/
+theorem processRaw_fe (fix : Bool) (win : Nat) (skip : Nat → Bool) (s : St) (c : Nat) (rs : List FeResp) (hm : MfcInv s c)
+    (h0 : s.nMfcFrame = 0) :
+    ∃ mb a rest more, processRaw fix win skip s rs =
+        ⟨(processMfcbuf fix win skip { s with mfcBuf := mb, nextId := c + a, nMfcFrame := a }).st, rest, more⟩ ∧
+      MfcInv { s with mfcBuf := mb, nextId := c + a, nMfcFrame := a } c ∧ a + offered rest ≤ offered rs ∧
+      (rest.length < rs.length ∨ (rs = [] ∧ more = false)) := by
+  have hal := hm.alloc
+  obtain ⟨mb, a, i1, i2, i3, i4, i5, i6, i7⟩ := rawLoop_spec (nMfc - s.nMfcFrame + 1) s c
+    ((s.mfcOutidx + s.nMfcFrame) % nMfc) (nMfc - s.nMfcFrame) rs true hm rfl rfl (Nat.le_refl _)
+  rcases hrl : rawLoop (nMfc - s.nMfcFrame + 1) s ((s.mfcOutidx + s.nMfcFrame) % nMfc) (nMfc - s.nMfcFrame) rs true with
+    ⟨s1, rs1, more1, inptr1, ncep1, done1⟩
+  rw [hrl] at i1 i4 i5 i6 i7
+  simp only [] at i1 i4 i5 i6 i7
+  cases done1 with
+  | true =>
+    refine ⟨mb, a, rs1, more1, ?_, i2, by omega, ?_⟩
+    · simp only [processRaw, hal, hrl, if_true]
+      rw [i1]; simp only [hal]
+    · rcases i7 rfl with h | h
+      · left; exact h
+      · right; exact h
+  | false =>
+    obtain ⟨j1, j2, j3⟩ := i6 rfl
+    -- the last call, limited by what is left of the ring
+    have hcnt := i2.cnt
+    simp only [] at hcnt
+    obtain ⟨mb2, e2, hm2⟩ := i2.feWrite (min (popResp rs1).1.nvec ncep1) inptr1 (by simp only []; exact j1)
+      (by omega) (by simp only []; omega)
+    simp only [] at e2 hm2
+    refine ⟨mb2, a + min (popResp rs1).1.nvec ncep1, (popResp rs1).2, (popResp rs1).1.more, ?_, ?_, ?_, ?_⟩
+    · simp only [processRaw, hal, hrl, Bool.false_eq_true, if_false]
+      rw [i1, e2, Nat.add_assoc]; simp only [hal]
+    · rw [Nat.add_assoc] at hm2; exact hm2
+    · have := offered_pop rs1
+      have hmin : min (popResp rs1).1.nvec ncep1 ≤ (popResp rs1).1.nvec := Nat.min_le_left _ _
+      omega
+    · cases rs1 with
+      | nil =>
+        cases rs with
+        | nil => right; exact ⟨rfl, rfl⟩
+        | cons r rs => left; simp [popResp]
+      | cons r1 rs1' =>
+        left
+        have : (popResp (r1 :: rs1')).2.length < (r1 :: rs1').length := by simp [popResp]
+        omega
 
 end SSVerif.AcmodBuf
